@@ -98,15 +98,21 @@ pub(crate) fn stale(i: usize, class: u8) {
 pub(crate) fn weak(i: usize) {
     unsafe {
         if let Some(h) = &HELD[i] {
-            WEAKS[i] = Some(h.downgrade());
+            let w = h.downgrade();
+            if let Some(m) = crate::weak::verif_proofs::weak_parts(&w).0 {
+                ccp::md::normalise_record_ptr(ccp::REG[i].unwrap(), m);
+            }
+            WEAKS[i] = Some(w);
         }
     }
 }
 pub(crate) fn act_fin(i: usize, a: Act, target: u8) {
+    g().actions_on = true;
     g().fin_act[i] = a;
     g().act_target[i] = target;
 }
 pub(crate) fn act_drop(i: usize, a: Act, target: u8) {
+    g().actions_on = true;
     g().drop_act[i] = a;
     g().act_target[i] = target;
 }
